@@ -18,5 +18,6 @@ CONSTANTS
   AllowDrop = FALSE
   AllowBnShare = TRUE
   PlainOps = {"add", "flat"}
+  Biases = {TRUE, FALSE}
   AllowFindings = TRUE
   MaxHist = 0
